@@ -53,7 +53,7 @@ LEVEL_NOTE = (
 )
 RULE = (
     "Enumerated: position (every application-controlled string position of requests, responses, cookies, payload and "
-    "multipart part headers, FormData and Content-Disposition parameters) x code point x placement (start/middle/end of "
+    "multipart part headers, FormData - also the filename taken from a file-like value's .name, and every FormData position behind a field of unknown size - and Content-Disposition parameters) x code point x placement (start/middle/end of "
     "a harmless string); one scenario = one position x a block of code points. Seeded: W2 programs (write_headers, "
     "send_headers, write(n), write_eof(n), set_eof, drain with n in {0,1,2047..2049,65535..65537,...}; chunked / declared "
     "length / neither; deflate/gzip or none; Response/StreamResponse with bytes, Payload, file, text file, async "
@@ -184,7 +184,11 @@ def _enum(names, blocks, core, full, fcases=()):
 def gen(rng, tier, index):
     r = rng.random()
     if r < 0.12:
-        return W2.gen_w1_strings(rng, list(W1.positions()))
+        scn = W2.gen_w1_strings(rng, [n for n in W1.positions() if n not in W1.LATER])
+        # positions added later (a file-like value naming itself, FormData behind a field of unknown size): drawn last
+        if rng.random() < 0.10:
+            scn["pos"] = rng.choice(W1.LATER)
+        return scn
     return W2.gen(rng, tier)
 
 
